@@ -166,18 +166,46 @@ func (e *Ext) streamName(root ssa.Value) string {
 
 // srcOfValue walks a stored value back to the input bytes it was read from.
 func (e *Ext) srcOfValue(v ssa.Value, at ssa.Instruction, names map[ssa.Value]string) *Atom {
+	// narrowest integer type seen on the way (a narrowing conversion selects the
+	// low bytes of a wider read) and byte-aligned right shifts applied before it
+	narrow := 0
+	shift := int64(0)
 	for {
 		switch x := v.(type) {
 		case *ssa.Convert:
+			if bits := intBitsOf(x.Type()); bits > 0 && (narrow == 0 || bits/8 < narrow) {
+				narrow = bits / 8
+			}
 			v = x.X
 			continue
 		case *ssa.ChangeType:
 			v = x.X
 			continue
+		case *ssa.BinOp:
+			// (word >> 8k) narrowed afterwards: bytes k.. of the word
+			if x.Op == token.SHR && narrow > 0 {
+				if k, ok := constI(x.Y); ok && k >= 0 && k%8 == 0 {
+					shift += k / 8
+					v = x.X
+					continue
+				}
+			}
 		}
 		break
 	}
 	c := e.FI.CtxBefore(at)
+	if call, ok := v.(*ssa.Call); ok && (narrow > 0 || shift > 0) {
+		if kind, w, order := binCall(call); kind == "get" && narrow > 0 && int(shift)+narrow <= w && (narrow < w || shift > 0) {
+			root, off := e.rootBuf(call.Common().Args[1], c)
+			// little-endian: byte k of the value is byte k of the read; big-endian: mirrored
+			delta := shift
+			if order == "BE" {
+				delta = int64(w) - shift - int64(narrow)
+			}
+			off = off.AddK(delta)
+			return &Atom{Kind: "fixed", Width: narrow, Order: order, Stream: e.streamName(root), Off: e.renderForm(off, names), OffForm: &off, Pos: call.Pos()}
+		}
+	}
 	switch x := v.(type) {
 	case *ssa.Call:
 		if kind, w, order := binCall(x); kind == "get" {
@@ -675,4 +703,20 @@ func reachSet(from *ssa.BasicBlock) map[*ssa.BasicBlock]bool {
 		work = append(work, b.Succs...)
 	}
 	return seen
+}
+
+func intBitsOf(t types.Type) int {
+	b, ok := t.Underlying().(*types.Basic)
+	if !ok || b.Info()&types.IsInteger == 0 {
+		return 0
+	}
+	switch b.Kind() {
+	case types.Int8, types.Uint8:
+		return 8
+	case types.Int16, types.Uint16:
+		return 16
+	case types.Int32, types.Uint32:
+		return 32
+	}
+	return 64
 }
